@@ -382,6 +382,8 @@ class SE:
             elif a[0] == 'ref' and b[0] == 'bool': t = (a[1] == If(b[1], c.pyTrue, c.pyFalse))
             elif a[0] == 'bool' and b[0] == 'ref': t = (b[1] == If(a[1], c.pyTrue, c.pyFalse))
             elif a[0] == 'enum' and b[0] == 'enum': t = BoolVal(a[1] == b[1])
+            elif {a[0], b[0]} == {'key', 'ref'} and (a if a[0] == 'ref' else b)[1].eq(c.null):
+                t = BoolVal(False)          # a dictionary key (a str) is never None
             elif a[0] != b[0]:
                 t = BoolVal(False) if {a[0], b[0]} & {'int', 'list', 'set', 'str'} else self._unsup('is on %s,%s' % (a[0], b[0]))
             else: raise Unsupported('is on %s,%s' % (a[0], b[0]))
